@@ -409,7 +409,7 @@ func jconfuse(orig *jnode, c string) *jnode {
 	case `"$s"`:
 		return &jnode{kind: 's', str: string(orig.bytes())}
 	case `"$long"`: // longer than any fixed-size buffer a key coordinate, hash or id is copied into
-		return &jnode{kind: 's', str: strings.Repeat("A", 300)}
+		return &jnode{kind: 's', str: strings.Repeat("B", 300)} // (base64 of a non-zero number)
 	}
 	return jraw(c)
 }
